@@ -48,6 +48,7 @@ def eq_coverage(repo, c, model, f):
         dict_fields.append("values")
     ft = FieldTaint(repo, c, f, [sn, on], dict_fields)
     ft.project_slots = {s for s, k in model.slot_kind.items() if k == "single"}
+    ft.one_sided = True
     ft._fix()
     pm = {}
     for n in ast.walk(f.node):
@@ -127,13 +128,13 @@ def run(repo, rep, tier):
         cov = eq_coverage(repo, c, m, f)
         for fld in fields:
             d = cov.get(fld)
-            ok = bool(d and d["full"] and (not d["zipped"] or d["len"]))
+            ok = bool(d and d["full"] and (not d["zipped"] or d["len"] or d["keys"]))
             r1.ob(ok, f"{c.name}.__eq__: field {fld}: {('compared' if ok else 'NOT compared')}")
             if ok:
                 continue
             if d and d["full"] and d["zipped"] and not d["len"]:
-                rep.finding("R9.1", f, d["node"], f"field `{fld}` is compared element-wise through zip() without a length "
-                            f"equality: an extra trailing element on one side is invisible to ==",
+                rep.finding("R9.1", f, d["node"], f"field `{fld}` is compared element-wise - through zip() or by iterating one operand - without a "
+                            f"length/key-set equality: an extra element (key) on the other side is invisible to ==, and == is not symmetric",
                             stmt=f"{fld}: zip without length check")
             elif d and d["part"]:
                 rep.finding("R9.1", f, d["node"], f"field `{fld}` is compared only in part - over a slice, or through one attribute of the "
